@@ -9,7 +9,7 @@ width 0 <=> all entries agree), everything outside section 4 identical."""
 from vlib import runner, sut, std, encutil, fuzz
 from vlib.runner import Outcome, Report
 from gen import messages as gmsg
-from refbufr import frame, codec, IllFormed
+from refbufr import frame, codec, message as rmessage, IllFormed
 from refbufr.bits import BitReader
 
 PID = 'C02'
@@ -66,6 +66,22 @@ def check_compressed_layout(out, case, produced):
     return out
 
 
+def poison_encoder(case):
+    """make the shared encoder refuse a message in the middle of its data section; True when it did refuse"""
+    import copy
+    rows = encutil.flat_values(case)
+    for i in range(case.nsub - 1, -1, -1):
+        fs = case.decoded.fields_of(i)
+        for k in range(len(fs) - 1, -1, -1):
+            f = fs[k]
+            if f.kind == 'num' and f.role == 'data' and f.nbits <= 32:
+                rows = copy.deepcopy(rows)
+                rows[i][k] = float(2 ** (f.nbits + 3) + abs(f.ref)) / (10.0 ** f.scale) * 4 + 10
+                bad = rmessage.flat_json(case.meta, case.ids, rows)
+                return not sut.call(encoder().process, bad).ok
+    return False
+
+
 def check_case(case):
     out = Outcome()
     feats = set(case.features)
@@ -89,6 +105,11 @@ def check_case(case):
     out.classes = sorted(feats)
     out.nontrivial = len(case.ids) > 1 or case.nsub > 1
     arg = encutil.as_json_text(flat) if use_text else flat
+    if int(case.key()[8:10], 16) % 4 == 0:
+        # an encoder object is reused: a message that is refused half-way (a value that does not fit its field, after the
+        # sections before it have been written) must leave nothing behind for the next one
+        if poison_encoder(case):
+            out.classes = sorted(set(out.classes) | {'encoder_reused_after_a_refused_message'})
     o = sut.call(encoder().process, arg)
     if not o.ok:
         return out.fail('encode raised %s@%s' % (o.exc_type, o.frame), error=o.msg)
